@@ -13,12 +13,17 @@ MANIFEST = {
                  "API options, each output frame checked against float64 lattice-congruence and minimum-image oracles",
     "text": "Systems {diatomic; 3-chain with each labelling of the middle atom; 3-ring; 4-atom star with each labelling of "
             "the centre (quick: centre 0 and 3); 3-chain + diatomic + ion in a blocked and an interleaved atom order with "
-            "anchors {A} and {A,B}; the same + 8 ions (11 molecules) with guessed anchors} x every permutation of the bond "
-            "list (<= 3 bonds) x cell pairs (menu cell i on even frames, cell i+1 on odd frames; quick 10 cells incl. "
+            "anchors {A} and {A,B}; the same + 8 ions (11 molecules) with guessed anchors; an explicit 3-chain anchor + one non-anchor "
+            "molecule W in {3-chain, 3-ring, 4-star, 4-path} in EVERY permutation of W's atom order (6+6+24+24; thorough also W "
+            "numbered before the anchor), W placed so that after centring it straddles the x, y or z face or the corner of "
+            "the cell, image_molecules called with its default other_molecules (Topology.find_molecules()); a 4-star + "
+            "relabelled 3-chain + 9 ions for the fully default call} x every permutation of the bond list (<= 3 bonds; "
+            "relabelled systems one order) x cell pairs (menu cell i on even frames, cell i+1 on odd frames; quick 10 cells incl. "
             "unreduced forms, thorough 24) x scatters: for <= 3 atoms every assignment of images {-1,0,1}^3 per atom "
             "(27^2, 27^3 = 19683 frames; quick: diatomic complete, 3 atoms: atom 0 in the home image and every assignment for "
             "the other two = 729 frames, i.e. every relative image configuration; mix6 bond permutations 0 and 5 only), for larger systems the identity, every single-atom "
-            "scatter, every single-bond cut with either side moved, every single-molecule shift x "
+            "scatter, every single-bond cut with either side moved, every single-molecule shift (relabelled systems: 4 placements x "
+            "{identity, every single-atom scatter, every whole-molecule shift} by the 6 face images, thorough 26) x "
             "{make_molecules_whole, image_molecules(make_whole=True), image_molecules(make_whole=False)} x inplace in "
             "{False, True} x anchors explicit / guessed. Oracle per frame (float64, from the stored float32 data): new-old "
             "(minus the move of atom 0 for image_molecules = one common translation) is an integer combination of that "
@@ -27,7 +32,8 @@ MANIFEST = {
             "vectors unchanged for tuples whose pairs are closer than 0.45 x the smallest width (unique image); with "
             "make_whole=False every non-anchor molecule moves rigidly; unit cell and time bit-identical; inplace=False "
             "leaves the source bit-identical, returns a new object sharing no memory; inplace=True returns self and "
-            "produces bit-identical coordinates. Right level: re-imaging is integer arithmetic on image numbers, so the "
+            "produces bit-identical coordinates. Separately Topology.find_molecules() must equal the union-find connected components "
+            "for every system and for every labelled bond graph on 1..5 atoms (1099 graphs x 2 bond-list orders). Right level: re-imaging is integer arithmetic on image numbers, so the "
             "behaviour is determined by the relative image configuration, which is enumerated completely.",
     "note": "Molecule extent is 0.2 x the smallest width (cell as given) per bond, all intramolecular distances < 0.4 width; "
             "cells in mdtraj's standard orientation only (a along x, b in the xy-plane); images within +-1 cell per atom. "
@@ -63,7 +69,8 @@ def _systems(quick):
 
 
 def cases(quick):
-    return [(si, ci) for si in range(len(_systems(quick))) for ci in range(len(_menu(quick)))]
+    """(system variant, cell pair) work items, plus (-1, 0): the bond-graph enumeration for find_molecules."""
+    return [(-1, 0)] + [(si, ci) for si in range(len(_systems(quick))) for ci in range(len(_menu(quick)))]
 
 
 def _cellclass(cell):
@@ -134,7 +141,6 @@ def run_topologies(quick):
                 seen.add((n, tuple(bl)))
             bad = _check_find_molecules(n, bl)
             if bad:
-                up = all(any(a < b for a, b in [e]) for e in bl)
                 recs.append(("find_molecules|not-the-connected-components|graph-enumeration|n=%d" % n,
                              "bonds %s (%s): %s" % (bl, order, bad),
                              dict(si=-1, ci=0, quick=quick, seed=0, api="find_molecules", n=n, bonds=bl)))
@@ -246,7 +252,9 @@ def run_item(arg):
         d = "%s %s cells=%s/%s: %s" % (api, sysv["name"], cells[0]["name"], cells[1]["name"], detail)
         if f >= 0:
             d += "; %d of %d frames, first frame %d (cell %s) images=%s" % (
-                int(np.sum(frames_bad)), F, f, cells[sel[f]]["name"], sc[f].tolist())
+                int(np.sum(frames_bad)), F, f, cells[sel[f]]["name"], sc[f][:-1].reshape(n, 3).tolist())
+            if sysv.get("placements"):
+                d += " placement=%s" % (sysv["placements"][int(sc[f][-1])],)
         recs.append((sig, d, dict(si=si, ci=ci, quick=quick, seed=seed, api=api, system=sysv["name"], frame=f)))
 
     def anchors_for(t, spec):
@@ -358,6 +366,11 @@ def run_item(arg):
                 rec(api, "dihedral-changed", "dihedral %s changed by %.3g rad" % (quad[q].tolist(), ed[f, q]), bad.any(1))
         return moved, tol
 
+    if not only or only == "find_molecules":
+        st["evals"] += 1
+        bad = _check_find_molecules(n, sysv["bonds"])
+        if bad:
+            rec("find_molecules", "not-the-connected-components", bad, None)
     apis = ["make_molecules_whole", "image_molecules/mw=1", "image_molecules/mw=0"]
     sysv = dict(sysv)
     sysv["_guessed"] = None
@@ -411,7 +424,7 @@ def run_item(arg):
         st["md_inconsistent"] += int(inc.sum())
         if st["sample"] is None and moved.any():
             f = int(np.argmax(moved))
-            st["sample"] = dict(system=sysv["name"], api=api, cell=cells[sel[f]]["name"], images_per_atom=sc[f].tolist(),
+            st["sample"] = dict(system=sysv["name"], api=api, cell=cells[sel[f]]["name"], images_per_atom=sc[f][:-1].reshape(n, 3).tolist(),
                                 old_xyz=snap["xyz"][f].tolist(), new_xyz=rx[f].tolist())
         # ---- inplace=True ----
         src2, _sc, _sel, _w = _build(sysv, cells, quick, seed)
@@ -444,7 +457,8 @@ def run(ctx):
     quick = ctx.quick
     cs = cases(quick)
     systems = _systems(quick)
-    cost = lambda c: -(27 ** systems[c[0]]["n"] if systems[c[0]]["small"] and not quick else systems[c[0]]["n"])
+    cost = lambda c: -(10 ** 6 if c[0] < 0 else 27 ** systems[c[0]]["n"] if systems[c[0]]["small"] and not quick
+                       else systems[c[0]]["n"])
     order = sorted(range(len(cs)), key=lambda i: cost(cs[i]))
     idn.measure_radii(ctx, _menu(quick), _stored_vectors)      # search radius each cell needs, before forking
     res_o = ctx.pmap(run_item, [cs[i] + (quick, ctx.seed) for i in order], chunksize=1)
@@ -452,7 +466,7 @@ def run(ctx):
     for i, r in zip(order, res_o):
         res[i] = r
     tot = dict(evals=0, nontrivial=0, guess_raised=0, md_inconsistent=0, excluded_ambiguous=0, excluded_illcond=0,
-               anchor_not_rigid_recorded=0, frames=0, api_runs=0, tuples_checked=0)
+               anchor_not_rigid_recorded=0, frames=0, api_runs=0, tuples_checked=0, topologies=0)
     err = 0.0
     samples = []
     keys = set()
@@ -482,6 +496,7 @@ def run(ctx):
         "work_items": len(cs),
         "trajectory_frames": tot["frames"],
         "api_calls_judged": tot["api_runs"],
+        "bond_graphs_enumerated_for_find_molecules": tot["topologies"],
         "angle_dihedral_tuples_checked": tot["tuples_checked"],
         "tuples_excluded_image_not_unique": tot["excluded_ambiguous"],
         "dihedrals_excluded_ill_conditioned": tot["excluded_illcond"],
@@ -500,6 +515,11 @@ def run(ctx):
 
 
 def replay(ctx, rep):
+    if rep["si"] < 0:
+        bad = [_check_find_molecules(rep["n"], [tuple(b) for b in rep["bonds"]]) for _ in (0, 1)]
+        assert bad[0] == bad[1], "replay is not deterministic"
+        print("replay: find_molecules ::", bad[0])
+        return bad[0] is None
     arg = (rep["si"], rep["ci"], rep["quick"], rep["seed"], rep["api"].split("/inplace")[0].split("/guessed")[0])
     a, _ = run_item(arg)
     b, _ = run_item(arg)
